@@ -28,7 +28,8 @@ THEOREMS_BY_PROP = {
     "C12": ["DepLogic.C12.only_mentions", "DepLogic.C12.only_implied", "DepLogic.C12.only_same",
             "DepLogic.C12.exclude_mentions", "DepLogic.C12.exclude_implied", "DepLogic.C12.exclude_same_partial",
             "DepLogic.C12.exclude_same_needs_noVanish", "DepLogic.C12.only_ok", "DepLogic.C12.exclude_ok",
-            "DepLogic.C12.singleSound_names", "DepLogic.C12.only_final", "DepLogic.C12.exclude_final"],
+            "DepLogic.C12.singleSound_names", "DepLogic.C12.only_final", "DepLogic.C12.exclude_final",
+            "DepLogic.C12.noVanish_dnf", "DepLogic.C12.exclude_same_dnf"],
     "C15": ["DepLogic.C15.flatten_nodup", "DepLogic.C15.mkMulti_nodup", "DepLogic.C15.mkUnion_nodup",
             "DepLogic.C15.multiOf_exit", "DepLogic.C15.unionOfList_exit", "DepLogic.C15.and_neutral",
             "DepLogic.C15.or_neutral", "DepLogic.C15.singleAnd_pair_distinct", "DepLogic.C15.singleOr_pair_distinct",
